@@ -4,6 +4,8 @@ import NurbsVerif.Lemmas.InsertSurf
 import NurbsVerif.Lemmas.VolLiftInsert
 import NurbsVerif.Lemmas.VolLiftPoint
 import NurbsVerif.Model.Shape
+import NurbsVerif.Lemmas.InsertObjDir
+import NurbsVerif.Lemmas.InsertObjExamples
 import Mathlib.Data.List.Perm.Basic
 
 /-!
@@ -376,5 +378,160 @@ example (Uu Uv : ℕ → ℚ) (u v : ℚ) (j : ℕ) :
   · simp [fnOf, List.getD]
   · simp [fnOf, knotInsertionKv, List.getD]; norm_num
   all_goals omega
+
+/-! ## several directions in one call, sequences of calls (surfaces and volumes)
+
+`insertKnot S params nums tol check` is the model of `operations.insert_knot(obj, params, nums)`: the
+loop over the parametric directions, skipping `None` parameters and zero counts, each direction
+applied to the object as the earlier directions left it.
+* `SurfWF d S` / `VolWF d S`: two / three directions, each with a well-formed knot vector (sorted,
+  right length, at least `p + 1` control points, non-empty last span), net of the right size with
+  points of dimension `d`.
+* `DirReqOk S dir u r tol`: `u` lies in the half-open domain of direction `dir`, the multiplicity `s`
+  that `find_multiplicity` computes with tolerance `tol` is a run of `s` copies ending at the span of
+  `u`, and `r + s ≤ p`.  `insert_request_admissible` derives it from decidable facts.
+* `CallOk n S params nums tol`: every requested direction (`< n`) of the call is admissible, stated
+  on the object the call is applied to (the other directions' knot vectors do not change before
+  their turn). -/
+
+/-- **Decidable route to admissibility**: if `u` is equal to or further than `tol` away from every knot
+    of the direction, lies in `[U_p, U_n)`, and its number of occurrences plus `r` does not exceed the
+    degree, the request is admissible. -/
+theorem insert_request_admissible (S : Shape K) (dir : ℕ) (u : K) (r : ℕ) (tol : K)
+    (hkv : KvWF (S.deg dir) (S.kv dir) (S.size dir)) (h0 : 0 ≤ tol)
+    (hsep : ∀ y ∈ S.kv dir, u = y ∨ tol < |u - y|)
+    (hlo : fnOf (S.kv dir) (S.deg dir) ≤ u) (hhi : u < fnOf (S.kv dir) (S.size dir))
+    (hrs : r + (S.kv dir).count u ≤ S.deg dir) : DirReqOk S dir u r tol :=
+  dirReqOk_of_sep S dir u r tol hkv h0 hsep hlo hhi hrs
+
+/-- **One `insert_knot` call on a surface, any subset of the two directions at once**: if every
+    requested direction is admissible the call completes (`R.2 = true`), the result is a well-formed
+    surface with the same degrees and the same domain, and the surface point at EVERY parameter pair
+    of the domain (ends included; spans by the library's search before and after) is unchanged in
+    every coordinate. -/
+theorem insertKnot_preserves_surface (d : ℕ) (S : Shape K) (hS : SurfWF d S) (params : List (Option K))
+    (nums : List ℕ) (tol : K) (check : Bool) (hreq : CallOk 2 S params nums tol)
+    (R : Shape K × Bool) (hR : insertKnot S params nums tol check = R)
+    (u v : K) (hu1 : fnOf (S.kv 0) (S.deg 0) ≤ u) (hu2 : u ≤ fnOf (S.kv 0) (S.size 0))
+    (hv1 : fnOf (S.kv 1) (S.deg 1) ≤ v) (hv2 : v ≤ fnOf (S.kv 1) (S.size 1)) (j : ℕ) :
+    R.2 = true ∧ SurfWF d R.1 ∧ R.1.degs = S.degs ∧ R.1.rat = S.rat ∧
+    (∀ i, i < 2 → fnOf (R.1.kv i) (R.1.deg i) = fnOf (S.kv i) (S.deg i) ∧
+      fnOf (R.1.kv i) (R.1.size i) = fnOf (S.kv i) (S.size i)) ∧
+    (surfacePoint (R.1.deg 0) (R.1.deg 1) (fnOf (R.1.kv 0)) (fnOf (R.1.kv 1)) (R.1.size 0) (R.1.size 1) R.1.net u v).getD j 0
+      = (surfacePoint (S.deg 0) (S.deg 1) (fnOf (S.kv 0)) (fnOf (S.kv 1)) (S.size 0) (S.size 1) S.net u v).getD j 0 := by
+  subst hR
+  obtain ⟨a, b, c, e⟩ := insertKnot_surface' d S hS params nums tol check hreq
+  exact ⟨e, a.wf, b, c, a.ends, a.eval u v hu1 hu2 hv1 hv2 j⟩
+
+/-- **One `insert_knot` call on a volume, any subset of the three directions at once.** -/
+theorem insertKnot_preserves_volume (d : ℕ) (S : Shape K) (hS : VolWF d S) (params : List (Option K))
+    (nums : List ℕ) (tol : K) (check : Bool) (hreq : CallOk 3 S params nums tol)
+    (R : Shape K × Bool) (hR : insertKnot S params nums tol check = R)
+    (u v w : K) (hu1 : fnOf (S.kv 0) (S.deg 0) ≤ u) (hu2 : u ≤ fnOf (S.kv 0) (S.size 0))
+    (hv1 : fnOf (S.kv 1) (S.deg 1) ≤ v) (hv2 : v ≤ fnOf (S.kv 1) (S.size 1))
+    (hw1 : fnOf (S.kv 2) (S.deg 2) ≤ w) (hw2 : w ≤ fnOf (S.kv 2) (S.size 2)) (j : ℕ) :
+    R.2 = true ∧ VolWF d R.1 ∧ R.1.degs = S.degs ∧ R.1.rat = S.rat ∧
+    (∀ i, i < 3 → fnOf (R.1.kv i) (R.1.deg i) = fnOf (S.kv i) (S.deg i) ∧
+      fnOf (R.1.kv i) (R.1.size i) = fnOf (S.kv i) (S.size i)) ∧
+    (volumePoint (R.1.deg 0) (R.1.deg 1) (R.1.deg 2) (fnOf (R.1.kv 0)) (fnOf (R.1.kv 1)) (fnOf (R.1.kv 2))
+        (R.1.size 0) (R.1.size 1) (R.1.size 2) R.1.net u v w).getD j 0
+      = (volumePoint (S.deg 0) (S.deg 1) (S.deg 2) (fnOf (S.kv 0)) (fnOf (S.kv 1)) (fnOf (S.kv 2))
+        (S.size 0) (S.size 1) (S.size 2) S.net u v w).getD j 0 := by
+  subst hR
+  obtain ⟨a, b, c, e⟩ := insertKnot_volume' d S hS params nums tol check hreq
+  exact ⟨e, a.wf, b, c, a.ends, a.eval u v w hu1 hu2 hv1 hv2 hw1 hw2 j⟩
+
+/-- **A later direction rejected by the multiplicity check** (`DirRejected`: `check` is on and
+    `r + s > p`): the model keeps the directions applied before the exception, and what it returns is
+    still a well-formed surface with the same domain and the same points – provided every requested
+    direction is either admissible or rejected. -/
+theorem insertKnot_partial_application_surface (d : ℕ) (S : Shape K) (hS : SurfWF d S) (params : List (Option K))
+    (nums : List ℕ) (tol : K) (check : Bool) (hreq : CallOkOrRej 2 S params nums tol check)
+    (u v : K) (hu1 : fnOf (S.kv 0) (S.deg 0) ≤ u) (hu2 : u ≤ fnOf (S.kv 0) (S.size 0))
+    (hv1 : fnOf (S.kv 1) (S.deg 1) ≤ v) (hv2 : v ≤ fnOf (S.kv 1) (S.size 1)) (j : ℕ) :
+    SurfWF d (insertKnot S params nums tol check).1 ∧
+    (surfEval (insertKnot S params nums tol check).1 u v).getD j 0 = (surfEval S u v).getD j 0 :=
+  let a := insertKnot_surface_any' d S hS params nums tol check hreq
+  ⟨a.wf, a.eval u v hu1 hu2 hv1 hv2 j⟩
+
+/-- The same for volumes. -/
+theorem insertKnot_partial_application_volume (d : ℕ) (S : Shape K) (hS : VolWF d S) (params : List (Option K))
+    (nums : List ℕ) (tol : K) (check : Bool) (hreq : CallOkOrRej 3 S params nums tol check)
+    (u v w : K) (hu1 : fnOf (S.kv 0) (S.deg 0) ≤ u) (hu2 : u ≤ fnOf (S.kv 0) (S.size 0))
+    (hv1 : fnOf (S.kv 1) (S.deg 1) ≤ v) (hv2 : v ≤ fnOf (S.kv 1) (S.size 1))
+    (hw1 : fnOf (S.kv 2) (S.deg 2) ≤ w) (hw2 : w ≤ fnOf (S.kv 2) (S.size 2)) (j : ℕ) :
+    VolWF d (insertKnot S params nums tol check).1 ∧
+    (volEval (insertKnot S params nums tol check).1 u v w).getD j 0 = (volEval S u v w).getD j 0 :=
+  let a := insertKnot_volume_any' d S hS params nums tol check hreq
+  ⟨a.wf, a.eval u v w hu1 hu2 hv1 hv2 hw1 hw2 j⟩
+
+/-- **Any sequence of `insert_knot` calls on a surface** (`insertCalls` = the left fold of the calls over
+    the object; `CallsOk 2 …`: every call admissible in the state it is applied to): the final object is
+    a well-formed surface over the same domain and every surface point is unchanged
+    (`surfEval T u v` = `surfacePoint` of `T`'s degrees, knot vectors, sizes and net). -/
+theorem insert_call_sequence_preserves_surface (d : ℕ) (tol : K) (check : Bool)
+    (calls : List (List (Option K) × List ℕ)) (S : Shape K) (hS : SurfWF d S) (hok : CallsOk 2 tol check S calls)
+    (u v : K) (hu1 : fnOf (S.kv 0) (S.deg 0) ≤ u) (hu2 : u ≤ fnOf (S.kv 0) (S.size 0))
+    (hv1 : fnOf (S.kv 1) (S.deg 1) ≤ v) (hv2 : v ≤ fnOf (S.kv 1) (S.size 1)) (j : ℕ) :
+    SurfWF d (insertCalls tol check S calls) ∧
+    (∀ i, i < 2 → fnOf ((insertCalls tol check S calls).kv i) ((insertCalls tol check S calls).deg i) = fnOf (S.kv i) (S.deg i) ∧
+      fnOf ((insertCalls tol check S calls).kv i) ((insertCalls tol check S calls).size i) = fnOf (S.kv i) (S.size i)) ∧
+    (surfEval (insertCalls tol check S calls) u v).getD j 0 = (surfEval S u v).getD j 0 :=
+  let a := insertCalls_surface d tol check calls S hS hok
+  ⟨a.wf, a.ends, a.eval u v hu1 hu2 hv1 hv2 j⟩
+
+/-- **Any sequence of `insert_knot` calls on a volume.** -/
+theorem insert_call_sequence_preserves_volume (d : ℕ) (tol : K) (check : Bool)
+    (calls : List (List (Option K) × List ℕ)) (S : Shape K) (hS : VolWF d S) (hok : CallsOk 3 tol check S calls)
+    (u v w : K) (hu1 : fnOf (S.kv 0) (S.deg 0) ≤ u) (hu2 : u ≤ fnOf (S.kv 0) (S.size 0))
+    (hv1 : fnOf (S.kv 1) (S.deg 1) ≤ v) (hv2 : v ≤ fnOf (S.kv 1) (S.size 1))
+    (hw1 : fnOf (S.kv 2) (S.deg 2) ≤ w) (hw2 : w ≤ fnOf (S.kv 2) (S.size 2)) (j : ℕ) :
+    VolWF d (insertCalls tol check S calls) ∧
+    (∀ i, i < 3 → fnOf ((insertCalls tol check S calls).kv i) ((insertCalls tol check S calls).deg i) = fnOf (S.kv i) (S.deg i) ∧
+      fnOf ((insertCalls tol check S calls).kv i) ((insertCalls tol check S calls).size i) = fnOf (S.kv i) (S.size i)) ∧
+    (volEval (insertCalls tol check S calls) u v w).getD j 0 = (volEval S u v w).getD j 0 :=
+  let a := insertCalls_volume d tol check calls S hS hok
+  ⟨a.wf, a.ends, a.eval u v w hu1 hu2 hv1 hv2 hw1 hw2 j⟩
+
+/-! ### non-vacuity of the object-level hypotheses -/
+
+/-- the example surface (degrees 1, 2; sizes 2 × 4) and volume (degrees 1, 1, 2; sizes 2 × 2 × 4) are
+    well formed -/
+example : SurfWF 3 exSurfQ := exSurfQ_wf
+example : VolWF 3 exVolQ := exVolQ_wf
+
+/-- inserting 1/2 once along u and 1/4 twice along v in ONE call is admissible for the surface … -/
+example : CallOk 2 exSurfQ [some (1/2), some (1/4)] [1, 2] (1/10000000) := by
+  intro dir hdir u hu hn
+  rcases (by omega : dir = 0 ∨ dir = 1) with rfl | rfl
+  · obtain rfl : (1/2 : ℚ) = u := by simpa using hu
+    exact insert_request_admissible exSurfQ 0 (1/2) 1 _ exSurfQ_wf.dir0 (by norm_num) (by decide +kernel)
+      (by decide +kernel) (by decide +kernel) (by decide +kernel)
+  · obtain rfl : (1/4 : ℚ) = u := by simpa using hu
+    exact insert_request_admissible exSurfQ 1 (1/4) 2 _ exSurfQ_wf.dir1 (by norm_num) (by decide +kernel)
+      (by decide +kernel) (by decide +kernel) (by decide +kernel)
+
+/-- … and the call completes with both knot vectors refined -/
+example : (insertKnot exSurfQ [some (1/2), some (1/4)] [1, 2] (1/10000000) true).2 = true ∧
+    (insertKnot exSurfQ [some (1/2), some (1/4)] [1, 2] (1/10000000) true).1.kvs
+      = [[0,0,1/2,1,1], [0,0,0,1/4,1/4,1/2,1,1,1]] := by decide +kernel
+
+/-- a volume call in the directions u and w (v skipped with `None`) is admissible … -/
+example : CallOk 3 exVolQ [some (1/3), none, some (1/2)] [1, 0, 1] (1/10000000) := by
+  intro dir hdir u hu hn
+  rcases (by omega : dir = 0 ∨ dir = 1 ∨ dir = 2) with rfl | rfl | rfl
+  · obtain rfl : (1/3 : ℚ) = u := by simpa using hu
+    exact insert_request_admissible exVolQ 0 (1/3) 1 _ exVolQ_wf.dir0 (by norm_num) (by decide +kernel)
+      (by decide +kernel) (by decide +kernel) (by decide +kernel)
+  · simp at hu
+  · obtain rfl : (1/2 : ℚ) = u := by simpa using hu
+    exact insert_request_admissible exVolQ 2 (1/2) 1 _ exVolQ_wf.dir2 (by norm_num) (by decide +kernel)
+      (by decide +kernel) (by decide +kernel) (by decide +kernel)
+
+/-- … while asking for 1/2 twice along w (multiplicity 1, degree 2) is rejected after u has been
+    applied: the flag is `false` and the u knot vector is already refined -/
+example : (insertKnot exVolQ [some (1/3), none, some (1/2)] [1, 0, 2] (1/10000000) true).2 = false ∧
+    (insertKnot exVolQ [some (1/3), none, some (1/2)] [1, 0, 2] (1/10000000) true).1.kvs
+      = [[0,0,1/3,1,1], [0,0,1,1], [0,0,0,1/2,1,1,1]] := by decide +kernel
 
 end C04
